@@ -88,7 +88,11 @@ def gen(rng):
     return {
         'faults': faults,
         'note': {'occupied': sorted(k for k, v in occ.items() if v != 'sibling-target')},
-        'world': {'mounts': L['mounts'], 'steps': steps},
+        # (in 6 % of the worlds the partition listing names a volume twice - the same mount point in two lines of the mount table,
+        # as after an over-mount: its trash directories are then visited twice in one scan)
+        'world': dict({'mounts': L['mounts'], 'steps': steps},
+                      **({'mount_order': [m for m in L['mounts']] + [rng.choice(L['vols'])] + [m for m in L['mounts'] if rng.random() < 0.3]}
+                         if L['vols'] and rng.random() < 0.06 else {})),
         'procs': [{'argv': ['trash-rm', pat], 'env': L['env'], 'cwd': rng.choice(['/', L['home']]), 'uid': L['uid']}],
         'dirsalt': rng.randrange(1 << 30),
     }
